@@ -31,6 +31,10 @@ type c10Cb struct {
 	blocked  chan struct{} // closed when OnData is blocked
 	release  chan struct{}
 	closedIn int32
+	// Close() inside OnData: how many times, whether only after being released from the block, how many returned
+	closeTimes    int
+	closeAfterBlk bool
+	closeReturned int32
 }
 
 func (c *c10Cb) OnData(r BufferReader) {
@@ -52,12 +56,23 @@ func (c *c10Cb) OnData(r BufferReader) {
 	c.got = append(c.got, cp...)
 	c.mu.Unlock()
 	for _, x := range cp {
-		if c.closeOn != 0 && x == c.closeOn && atomic.CompareAndSwapInt32(&c.closedIn, 0, 1) {
-			_ = c.stream.Close()
+		if c.closeOn != 0 && x == c.closeOn && !c.closeAfterBlk && atomic.CompareAndSwapInt32(&c.closedIn, 0, 1) {
+			n := c.closeTimes
+			if n == 0 {
+				n = 1
+			}
+			for i := 0; i < n; i++ {
+				_ = c.stream.Close()
+				atomic.AddInt32(&c.closeReturned, 1)
+			}
 		}
 		if c.blockOn != 0 && x == c.blockOn && c.blocked != nil {
 			close(c.blocked)
 			<-c.release
+			if c.closeAfterBlk && atomic.CompareAndSwapInt32(&c.closedIn, 0, 1) {
+				_ = c.stream.Close()
+				atomic.AddInt32(&c.closeReturned, 1)
+			}
 		}
 	}
 }
@@ -538,6 +553,12 @@ func TestVerif_C10(t *testing.T) {
 		}
 		emit(c)
 	}
+	// last (a failing one leaves a lost goroutine behind): Close() inside OnData whose CAS cannot succeed
+	for _, sc := range []string{"inside-twice", "inside-after-peer-close"} {
+		c := c10InsideCase(c10Case{ID: id, Mode: "callback", Scenario: sc})
+		id++
+		o.emit(c)
+	}
 	t.Logf("emitted %d cases", id)
 }
 
@@ -618,6 +639,130 @@ func c10GhostCase(c c10Case) c10Case {
 	return c
 }
 
+// c10InsideCase: Close() issued inside OnData when its CAS in the "callback in process" branch cannot succeed:
+//   twice            OnData calls Close() twice (the second finds the stream already locally half-closed)
+//   after-peer-close OnData is parked, the peer closes, OnRemoteClose is delivered, then OnData calls Close()
+// Every wait is bounded.  If a Close() does not return the callback goroutine is lost; the sessions of that case
+// are then NOT closed (Session.Close would wait for that goroutine on the process-wide dispatcher).
+func c10InsideCase(c c10Case) c10Case {
+	blocked, release := make(chan struct{}), make(chan struct{})
+	twice := c.Scenario == "inside-twice"
+	mk := func(s *Stream) *c10Cb {
+		if twice {
+			return &c10Cb{closeOn: 0xEE, closeTimes: 2}
+		}
+		return &c10Cb{blockOn: 0xDD, closeOn: 0xDD, closeAfterBlk: true, blocked: blocked, release: release}
+	}
+	client, server, l := c10Pair(true, mk)
+	if client == nil {
+		c.Skipped = "session pair could not be created"
+		return c
+	}
+	wedged := false
+	defer func() {
+		if !wedged {
+			client.Close()
+			server.Close()
+		}
+	}()
+	cs, err := client.OpenStream()
+	if err != nil {
+		c.Skipped = "OpenStream failed"
+		return c
+	}
+	ccb := &c10Cb{stream: cs}
+	_ = cs.SetCallbacks(ccb)
+	if c10Flush(cs, []byte{1, 2, 3}) != nil {
+		c.Skipped = "first Flush failed"
+		return c
+	}
+	var ss *Stream
+	var scb *c10Cb
+	select {
+	case ss = <-l.ch:
+		scb = <-l.cb
+	case <-time.After(c10Wait):
+		c.Skipped = "server never saw the stream"
+		return c
+	}
+	c10WaitFor(c10Wait, func() bool { return scb.gotLen() >= 3 })
+	or := map[string]bool{}
+	want := int32(1)
+	if twice {
+		want = 2
+		_ = c10Flush(cs, []byte{0xEE})
+	} else {
+		_ = c10Flush(cs, []byte{0xDD})
+		select {
+		case <-blocked:
+		case <-time.After(c10Wait):
+			c.Skipped = "OnData never blocked"
+			close(release)
+			return c
+		}
+		_ = cs.Close() // the peer closes while the server's OnData is running
+		if !c10WaitFor(c10Wait, func() bool { return atomic.LoadInt32(&scb.remote) >= 1 }) {
+			or["peer: OnRemoteClose delivered 0 times"] = true
+		}
+		close(release)
+	}
+	returned := c10WaitFor(c10Wait, func() bool { return atomic.LoadInt32(&scb.closeReturned) >= want })
+	obs := &c.Obs
+	if !returned {
+		wedged = true
+		or[fmt.Sprintf("final: Close() issued inside OnData did not return (%d of %d calls returned)", atomic.LoadInt32(&scb.closeReturned), want)] = true
+	}
+	c10WaitFor(c10Wait, func() bool {
+		return atomic.LoadUint32(&ss.state) == uint32(streamClosed) && server.GetActiveStreamCount() == 0
+	})
+	obs.CloserState = atomic.LoadUint32(&ss.state)
+	obs.CloserActive = server.GetActiveStreamCount()
+	if obs.CloserActive != 0 {
+		or["final: the closed stream still counts as active on the closing end"] = true
+	}
+	if !wedged {
+		obs.CloserFlush = c20ErrClassT(c10Flush(ss, []byte{9}))
+		if obs.CloserFlush != "ErrStreamClosed" {
+			or["final: Flush on the closing end after Close returned "+obs.CloserFlush] = true
+		}
+	}
+	if twice {
+		// the client must learn about the close
+		c10WaitFor(c10Wait, func() bool { return atomic.LoadInt32(&ccb.remote) >= 1 })
+		obs.PeerFlush = c20ErrClassT(c10Flush(cs, []byte{8}))
+		if obs.PeerFlush != "ErrStreamClosed" {
+			or["peer: Flush on the peer after the close was handled returned "+obs.PeerFlush] = true
+		}
+		_ = cs.Close()
+	}
+	time.Sleep(5 * time.Millisecond)
+	obs.CloserLocal, obs.CloserRemote = int(atomic.LoadInt32(&scb.local)), int(atomic.LoadInt32(&scb.remote))
+	obs.PeerLocal, obs.PeerRemote = int(atomic.LoadInt32(&ccb.local)), int(atomic.LoadInt32(&ccb.remote))
+	obs.PeerState = atomic.LoadUint32(&cs.state)
+	if twice {
+		if obs.CloserLocal != 1 || obs.CloserRemote != 0 {
+			or[fmt.Sprintf("callbacks: closing end got OnLocalClose=%d OnRemoteClose=%d", obs.CloserLocal, obs.CloserRemote)] = true
+		}
+		if obs.PeerRemote != 1 || obs.PeerLocal != 0 {
+			or[fmt.Sprintf("callbacks: peer got OnLocalClose=%d OnRemoteClose=%d", obs.PeerLocal, obs.PeerRemote)] = true
+		}
+	} else {
+		if obs.CloserLocal != 0 || obs.CloserRemote != 1 {
+			or[fmt.Sprintf("callbacks: closing end got OnLocalClose=%d OnRemoteClose=%d", obs.CloserLocal, obs.CloserRemote)] = true
+		}
+		if obs.PeerLocal != 1 || obs.PeerRemote != 0 {
+			or[fmt.Sprintf("callbacks: peer got OnLocalClose=%d OnRemoteClose=%d", obs.PeerLocal, obs.PeerRemote)] = true
+		}
+	}
+	if obs.CloserState != uint32(streamClosed) {
+		or["final: the closing end's state is not closed at quiescence"] = true
+	}
+	for k := range or {
+		c.Oracle = append(c.Oracle, k)
+	}
+	return c
+}
+
 // ---- mechanism S: closer-heavy configurations on the controlled scheduler ----
 func TestVerif_C10S(t *testing.T) {
 	seed := uint64(venvInt("VERIF_SEED", 1))
@@ -657,6 +802,22 @@ func TestVerif_C10S(t *testing.T) {
 	o.emit(c20Run(env, c20Case{ID: id, Kind: "witness-inside", Strat: "fixed-prefix", Cmp: true, Cb0: true, Inb: [][]int{{1}}, Script: [][2]int{{1, 1}}},
 		func() vsChooser { return c20PrefixChooser([]int{0, 0, 0}) }, 3000))
 	id++
+	// Close() repeated inside one OnData; Close() inside OnData after the peer's close was handled during it
+	o.emit(c20Run(env, c20Case{ID: id, Kind: "inside-twice", Strat: "fixed-prefix", Cmp: true, Cb0: true, Inb: [][]int{{1}}, Script: [][2]int{{1, 2}}},
+		func() vsChooser { return c20PrefixChooser([]int{0, 0, 0}) }, 600))
+	id++
+	o.emit(c20Run(env, c20Case{ID: id, Kind: "inside-after-peer-close", Strat: "fixed-prefix", Cmp: true, Cb0: true, Inb: [][]int{{1}, {}}, Script: [][2]int{{1, 1}}},
+		func() vsChooser { return c20PrefixChooser([]int{0, 0, 0, 1, 1, 0, 0}) }, 600))
+	id++
+	for x := 0; x < 2; x++ {
+		for k := 0; k <= 8; k++ {
+			c := c20Case{ID: id, Kind: "inside-after-peer-close", Cmp: true, Cb0: true, Inb: [][]int{{1, 2}, {}}, Script: [][2]int{{1, 1 + k%2}}}
+			c.Strat = fmt.Sprintf("systematic-preempt(t%d@%d)", x, k)
+			x, k := x, k
+			o.emit(c20Run(env, c, func() vsChooser { return vsPreemptChooser(newVrand(seed+uint64(id)), x, k) }, 600))
+			id++
+		}
+	}
 	o.emit(c20Run(env, c20Case{ID: id, Kind: "witness-cas-race", Strat: "fixed-prefix", Cmp: true, Cb0: false, NCl: 1, Inb: [][]int{{}}},
 		func() vsChooser { return c20PrefixChooser([]int{1, 1, 0, 0, 1}) }, 3000))
 	id++
